@@ -42,6 +42,11 @@ class BaseRequest:
             out_err = errors_map.get(err_cls)
             if out_err:
                 err = out_err
+                if isinstance(err, BaseException):
+                    # the mapped error object is shared by all requests: drop
+                    # the traceback of its previous raise, otherwise the chain
+                    # grows and keeps the frames of every failed request alive
+                    err = err.with_traceback(None)
                 break
         raise err
 
